@@ -43,7 +43,10 @@ func rulesC05(c *Ctx) {
 		idleAndShut := func(atoms []Atom) bool {
 			i := hasAtom(atoms, func(a Atom) bool { ce, ok := a.E.(*ast.CallExpr); return ok && a.Val && uif.IsCallTo(ce, idleObj) })
 			s := hasAtom(atoms, func(a Atom) bool {
-				return AtomSaysNil(a, false, func(e ast.Expr) bool { ce, ok := ast.Unparen(e).(*ast.CallExpr); return ok && uif.IsCallTo(ce, shutObj) })
+				return AtomSaysNil(a, false, func(e ast.Expr) bool {
+					ce, ok := ast.Unparen(e).(*ast.CallExpr)
+					return ok && uif.IsCallTo(ce, shutObj)
+				})
 			})
 			return i && s
 		}
@@ -52,7 +55,9 @@ func rulesC05(c *Ctx) {
 				v := g.VertexOf(call)
 				guards := g.GuardsAt(v)
 				c.Check(idleAndShut(guards), "updateInFlight:close-only-when-idle-and-shutting-down", uif, call, "closer.Close() is control-dependent on idle() && shuttingDown() != nil (guards: %s): closing earlier cuts off running handlers / pending responses", atomsString(guards))
-				c.Check(hasAtom(guards, func(a Atom) bool { return AtomSaysNil(a, false, func(e ast.Expr) bool { return uif.IsField(e, closerF) }) }), "updateInFlight:close-once", uif, call, "closer.Close() is guarded by closer != nil")
+				c.Check(hasAtom(guards, func(a Atom) bool {
+					return AtomSaysNil(a, false, func(e ast.Expr) bool { return uif.IsField(e, closerF) })
+				}), "updateInFlight:close-once", uif, call, "closer.Close() is guarded by closer != nil")
 				// closer = nil follows on all paths
 				okn, _ := g.PostDominatedBy(v, func(u int) bool {
 					for _, w := range Writes(g.Node(u), false) {
@@ -263,14 +268,18 @@ func rulesC05(c *Ctx) {
 				nInc++
 				wv := lg.VertexOf(w)
 				okRef := verdict != nil
-				for _, t := range lg.edgesWhere(func(a Atom) bool { return AtomSaysNil(a, false, func(e ast.Expr) bool { return l.ObjOf(e) == verdict }) }) {
+				for _, t := range lg.edgesWhere(func(a Atom) bool {
+					return AtomSaysNil(a, false, func(e ast.Expr) bool { return l.ObjOf(e) == verdict })
+				}) {
 					seen, _ := lg.reach([]int{t}, nil, nil)
 					if seen[wv] || t == wv {
 						okRef = false
 					}
 				}
 				// there is such a test between the verdict and the increment
-				okRef = okRef && len(lg.edgesWhere(func(a Atom) bool { return AtomSaysNil(a, false, func(e ast.Expr) bool { return l.ObjOf(e) == verdict }) })) > 0
+				okRef = okRef && len(lg.edgesWhere(func(a Atom) bool {
+					return AtomSaysNil(a, false, func(e ast.Expr) bool { return l.ObjOf(e) == verdict })
+				})) > 0
 				c.Check(okRef, "Notify:refused-not-counted", l, w, "outgoingNotifications++ is unreachable from the branch on which shuttingDown returned an error")
 			}
 		}
@@ -549,6 +558,11 @@ func rulesC05(c *Ctx) {
 		c.goroutineRules([]string{pJ, pM})
 	})
 
+	c.Import("R-C05-11", "Close cannot be held up by a call that was abandoned: cancelCall retires the call on every path (the long-lived subscriptions/listen call is retired only this way)", "C04", "R-C04-1", func(k string) bool { return strings.HasPrefix(k, "cancelCall:retire") })
+	c.Import("R-C05-12", "no idle timer survives its session: start/end are paired, stopTimer stops and forgets the timer, the callback only closes the session", "C11", "R-C11-4", func(k string) bool {
+		return strings.HasPrefix(k, "stopTimer") || strings.HasPrefix(k, "startPOST") || strings.HasPrefix(k, "endPOST") || strings.HasPrefix(k, "idle-timer")
+	})
+
 	c.Rule("R-C05-10", "Close announces shutdown and then waits; Wait and Close return only after done is closed; shuttingDown says no exactly when Close was called or either direction is broken", func() {
 		cl := c.Fn(pJ, "Connection", "Close")
 		cg := cl.Graph()
@@ -765,13 +779,13 @@ func typeMentions(t types.Type, target *types.Named, depth int) bool {
 // bareChanOps is the closed table of blocking channel operations outside a select in SDK code, each
 // with the reason it cannot block forever (given the property's provisos).
 var bareChanOps = map[string]string{
-	"(*Connection).wait:recv Connection.done":               "the API's blocking point: Wait/Close block until the connection is done",
-	"(*Connection).handleAsync:recv releaser.ch":            "released by the deferred release(true) of the handler goroutine started in the same iteration (R-C03-3)",
-	"(*Server).subscriptionsListen:recv context.Done()":     "handler context: cancelled by the peer's cancel, by reader exit, or by ServerSession.Close (R-C05-4)",
-	"callSubscriptionsListen$1:recv context.Done()":         "cancelled by ClientSession.Close via listenCancel (R-C05-4)",
-	"(*Server).Run$1:send local(chan error)":                "received on both arms of Run's select",
-	"(*Server).Run:recv local(chan error)":                  "the goroutine above sends exactly once after Wait returns; Close was just called",
-	"(*pipeRWC).Close$1:send local(chan error)":             "buffered channel of capacity 1",
+	"(*Connection).wait:recv Connection.done":           "the API's blocking point: Wait/Close block until the connection is done",
+	"(*Connection).handleAsync:recv releaser.ch":        "released by the deferred release(true) of the handler goroutine started in the same iteration (R-C03-3)",
+	"(*Server).subscriptionsListen:recv context.Done()": "handler context: cancelled by the peer's cancel, by reader exit, or by ServerSession.Close (R-C05-4)",
+	"callSubscriptionsListen$1:recv context.Done()":     "cancelled by ClientSession.Close via listenCancel (R-C05-4)",
+	"(*Server).Run$1:send local(chan error)":            "received on both arms of Run's select",
+	"(*Server).Run:recv local(chan error)":              "the goroutine above sends exactly once after Wait returns; Close was just called",
+	"(*pipeRWC).Close$1:send local(chan error)":         "buffered channel of capacity 1",
 }
 
 func (c *Ctx) goroutineRules(rels []string) {
